@@ -15,7 +15,8 @@ Inductive case :=
     (* o: what compile_str did; stable: same answer again, after use, after a cache drop;
        agree: parse and compile_str accept/reject alike and compile_expr (parse s) = compile_str s *)
 | ExprC (e : expr) (o : outcome)                    (* an expression built through the API, compile_expr *)
-| Pair (same : bool) (s1 s2 : text) (o1 o2 : outcome) (pyeq hasheq : bool).
+| Pair (same : bool) (s1 s2 : text) (o1 o2 : outcome) (pyeq hasheq removal : bool).
+    (* removal: a handler registered on a probe object by text s1 could be removed by text s2 *)
 
 Definition outcome_eqb (m i : outcome) : bool :=
   match m, i with
@@ -30,7 +31,7 @@ Definition corr_codes (c : case) : list Z :=
   match c with
   | Single s o _ _ => chk 1 (outcome_eqb (compile_str (chars s)) o)
   | ExprC e o => chk 1 (outcome_eqb (match create_graphs e [] with Some gs => Graphs gs | None => CompileError end) o)
-  | Pair _ s1 s2 o1 o2 _ _ =>
+  | Pair _ s1 s2 o1 o2 _ _ _ =>
       chk 1 (outcome_eqb (compile_str (chars s1)) o1) ++ chk 2 (outcome_eqb (compile_str (chars s2)) o2)
   end.
 
@@ -38,8 +39,9 @@ Definition law_codes (c : case) : list Z :=
   match c with
   | Single s o stable agree => law_single (chars s) o ++ chk 13 stable ++ chk 14 agree
   | ExprC e o => law_expr e o
-  | Pair same s1 s2 o1 o2 pyeq hasheq =>
+  | Pair same s1 s2 o1 o2 pyeq hasheq removal =>
       law_single (chars s1) o1 ++ map (fun c => 20 + c) (law_single (chars s2) o2) ++ law_pair same o1 o2 pyeq hasheq
+      ++ chk 15 (negb same || removal)
   end.
 
 (* the parser must never run out of fuel on an input it rejects for that reason: fuel_for is proved sufficient
@@ -53,7 +55,7 @@ Definition fuel_codes (c : case) : list Z :=
                                    | None, None => true
                                    | _, _ => false end)
                end in
-  match c with Single s _ _ _ => one s | ExprC _ _ => [] | Pair _ s1 s2 _ _ _ _ => one s1 ++ one s2 end.
+  match c with Single s _ _ _ => one s | ExprC _ _ => [] | Pair _ s1 s2 _ _ _ _ _ => one s1 ++ one s2 end.
 
 (* ------------------------------------------------------------------ exhaustive grids *)
 (* 13 symbols: a b items + * . : , [ ] space e-acute (a non-ASCII word character) and the digit 1 *)
